@@ -628,6 +628,22 @@ def sequence_case(sh, i):
                 systems.append(System())
                 mine[k] = make_assets(rng, 'bcd'[k - 1], rng.randint(1, 5))
             newest = systems[-1]
+            # the kept object of an older System that never ran is copied (or pickled and loaded) while the newest
+            # System is active: that must not touch the newest System's registry
+            old_unrun = [s_ for s_ in systems[:-1] if s_ not in simulated]
+            if old_unrun and rng.random() < 0.5:
+                import copy
+                import pickle
+                victim = rng.choice(old_unrun)
+                try:
+                    if rng.random() < 0.5:
+                        pickle.loads(pickle.dumps(victim))
+                        sh.count('older_systems_pickled_and_loaded')
+                    else:
+                        raise pickle.PicklingError('deepcopy instead')
+                except Exception:
+                    copy.deepcopy(victim)
+                    sh.count('older_systems_deep_copied')
             spawned = []
             if rng.random() < 0.5:
                 from simprocesd.model.factory_floor import ActionScheduler
@@ -697,7 +713,9 @@ def sequence_case(sh, i):
                 if rng.random() < 0.5:
                     q['name'] = rng.choice(names + ['nope'])
                 if rng.random() < 0.3:
-                    q['id_'] = rng.choice(pool).id
+                    # (the number as a user would have it - typed in, parsed from a default name - not the very
+                    # int object the asset holds)
+                    q['id_'] = int(str(rng.choice(pool).id))
                 if rng.random() < 0.4:
                     q['type_'] = rng.choice([PartHandler, PartProcessor, type(rng.choice(pool))])
                 if rng.random() < 0.4:
